@@ -8,3 +8,5 @@ import SJ.Props.C15
 #print axioms SJ.Props.C15.c15_valueOfImage_is_canon
 #print axioms SJ.Props.C15.c15_agree_partial
 #print axioms SJ.Props.C15.c15_agree_of_parser
+#print axioms SJ.Props.C15.parserComplete
+#print axioms SJ.Props.C15.c15_agree
